@@ -693,6 +693,14 @@ func (e *Env) monitorSettled(st *Step, f []string, kind string, ok bool) {
 		keys = append(keys, [3]int{atoi(f[1]), atoi(f[2]), atoi(f[3])})
 	case "redelegate":
 		keys = append(keys, [3]int{atoi(f[1]), atoi(f[2]), atoi(f[4])}, [3]int{atoi(f[1]), atoi(f[3]), atoi(f[4])})
+	case "slash":
+		// the destination positions the callback cut (their shares changed) were claimed for first: they must be settled
+		// afterwards — a stale copy written back over the claim's record would pay the same index difference twice
+		for _, d := range post.Dels {
+			if p := st.PreS.Del(d.Del, d.Val, d.Denom); p != nil && p.Shares.Cmp(d.Shares) != 0 {
+				keys = append(keys, [3]int{d.Del, d.Val, d.Denom})
+			}
+		}
 	default:
 		return
 	}
@@ -717,6 +725,9 @@ func (e *Env) monitorSettled(st *Step, f []string, kind string, ok bool) {
 		}
 		if !histEq(have, want) {
 			st.fail("C13", "not_settled", "position (%d,%d,%d) was not settled by %s: indices %v, validator has %v", k[0], k[1], k[2], kind, have, want)
+			if kind == "slash" {
+				st.fail("C12", "slash_cut_not_settled", "position (%d,%d,%d) was cut by the slash callback after a claim but carries indices %v, validator has %v: the same rewards are payable again", k[0], k[1], k[2], have, want)
+			}
 		}
 	}
 }
